@@ -81,6 +81,10 @@ variable {α : Type}
 def memo (A : Op α) : Op α :=
   { A with eval := fun x => Scico.Adjoint.memo A.nout (A.eval x), adj := fun y => Scico.Adjoint.memo A.nin (A.adj y) }
 
+/-- `x ↦ M x` for a matrix with `n` columns -/
+def _root_.Scico.Adjoint.mulVec [Add α] [Mul α] [Zero α] (n : Nat) (M : Nat → Nat → α) : V α → V α :=
+  fun x i => sumTo n (fun j => M i j * x j)
+
 /-- dense matrix leaf: `MatrixOperator`: `A @ x`, `A.conj().T @ y` -/
 def mat [Add α] [Mul α] [Zero α] [HasConj α] (m n : Nat) (M : Nat → Nat → α) : Op α where
   nin := n
@@ -313,11 +317,14 @@ variable {α : Type} [HasConj α]
 /-- `conj_fun` of `_autograd.py` -/
 def conjFun (f : V α → V α) : V α → V α := fun x => vconj (f (vconj x))
 
-/-- `linear_adjoint(fun, primal)`: `jt` stands for `jax.linear_transpose` (contract: Proofs/AdjointLinAdj) -/
-def linearAdjoint (jt : (V α → V α) → (V α → V α)) (primalComplex outComplex : Bool) (f : V α → V α) : V α → V α :=
-  if primalComplex then jt (conjFun f)
-  else if outComplex then jt (conjFun f)
-  else jt f
+/-- `linear_adjoint(fun, primal)`.  `jt pc m n g` stands for `jax.linear_transpose(g, primal)` for a primal of
+    size `n` (complex iff `pc`) and an output of size `m` (its contract: Proofs/AdjointLeaves `JaxTranspose`).
+    The three branches: complex primal (C→R or C→C) / real primal with complex output / real. -/
+def linearAdjoint (jt : Bool → Nat → Nat → (V α → V α) → (V α → V α)) (m n : Nat)
+    (primalComplex outComplex : Bool) (f : V α → V α) : V α → V α :=
+  if primalComplex then jt true m n (conjFun f)
+  else if outComplex then jt false m n (conjFun f)
+  else jt false m n f
 
 end linadj
 
